@@ -16,7 +16,7 @@ import (
 //   + price*size*(end - now)   for every completed shard the order pays for (unearned income)
 //   + price*size*order.Duration for every shard still waiting  (never stored)
 // truncated to whole coins, and stops the income of the completed shards.
-func Ob_C04_Withdraw() {
+func Ob_C04C14_Withdraw() {
 	w := NewWorld()
 	sym.SetBound("Order.Shards", 2)
 	var o ordertypes.Order
@@ -41,6 +41,28 @@ func Ob_C04_Withdraw() {
 		}
 	}
 	sym.Assume(!expected.IsNegative())
+	// workers of the providers whose shard does NOT serve this order (another order's shard that this order only
+	// lists, e.g. a queued renewal): their bytes and income rate must not move
+	type wsnap struct {
+		name string
+		w    markettypes.Worker
+		had  bool
+	}
+	var bystanders []wsnap
+	for _, id := range o.Shards {
+		s, f := w.Order.GetShard(w.Ctx, id)
+		if f && !(s.Status == ordertypes.ShardCompleted && s.OrderId == o.Id) {
+			serving := false
+			for _, id2 := range o.Shards {
+				s2, f2 := w.Order.GetShard(w.Ctx, id2)
+				serving = sym.Or(serving, sym.And(f2, s2.Sp == s.Sp, s2.Status == ordertypes.ShardCompleted, s2.OrderId == o.Id))
+			}
+			if !serving {
+				wk, hw := w.Market.GetWorker(w.Ctx, workerName(s.Sp))
+				bystanders = append(bystanders, wsnap{workerName(s.Sp), wk, hw})
+			}
+		}
+	}
 	nT := w.TransferCount()
 	var refund sdk.Coin
 	var err error
@@ -56,6 +78,10 @@ func Ob_C04_Withdraw() {
 		moved = moved.Add(newInt(t.Amt))
 	}
 	sym.Assert("C04.withdraw-moves-refund", moved.Equal(refund.Amount))
+	for _, b := range bystanders {
+		wk, hw := w.Market.GetWorker(w.Ctx, b.name)
+		sym.Assert("C14.withdraw-releases-only-own-shards", hw == b.had && (!hw || (wk.Storage == b.w.Storage && wk.IncomePerSecond.Amount.Equal(b.w.IncomePerSecond.Amount))))
+	}
 }
 
 // C16 / T-history force-push: operation 2 replaces only the latest history entry.
